@@ -148,6 +148,44 @@ pub fn generate(prop: &str, seed: u64, tier: &str, out: &mut dyn std::io::Write)
             let name = (*r.pick(&["/user/supplied/lib.so", "/user/supplied/libx.so.3.1", "relative-name"])).to_string();
             cfg.user_mappings.push((st, sz, *r.pick(&[0u64, 0x1000]), *r.pick(&[0x15u8, 0x11, 0x13]), name, r.bytes(idlen)));
         }
+        // longer caller lists in which only a later (or only an earlier) entry contains a module: entries at lower
+        // and higher addresses that contain nothing around it, in ascending, descending or shuffled order
+        {
+            let mut r2 = Rng::for_case(seed, 808, i);
+            if r2.chance(1, 3) {
+                cfg.user_mappings.clear();
+                let (a, p) = *r2.pick(&lmods);
+                let len = p * PAGE as u64;
+                let mut list: Vec<(u64, u64)> = vec![
+                    (0x1000_0000 + r2.below(16) * 0x10000, 0x3000),                  // far below, contains nothing
+                    (a - 3 * PAGE as u64, 2 * PAGE as u64),                           // just below the module
+                    *r2.pick(&[(a, len), (a - PAGE as u64, len + 2 * PAGE as u64)]),  // contains the module
+                    (a + len + PAGE as u64, PAGE as u64),                             // just above it
+                ];
+                match r2.below(3) {
+                    0 => {}
+                    1 => list.reverse(),
+                    _ => { let k = r2.below(4) as usize; list.swap(0, k); let k = r2.below(4) as usize; list.swap(3, k); }
+                }
+                let keep = r2.range(2, 4) as usize;
+                // always keep the containing entry
+                let cont = list.iter().position(|x| x.0 <= a && a + len <= x.0 + x.1).unwrap();
+                let mut chosen: Vec<(u64, u64)> = Vec::new();
+                let mut others = 0;
+                for (k, e) in list.iter().enumerate() {
+                    if k == cont {
+                        chosen.push(*e);
+                    } else if others + 1 < keep {
+                        chosen.push(*e);
+                        others += 1;
+                    }
+                }
+                for (k, (st, sz)) in chosen.iter().enumerate() {
+                    let idlen = *r2.pick(&[0usize, 16, 20]);
+                    cfg.user_mappings.push((*st, *sz, 0, 0x15, format!("/user/list/lib{}.so", k), r2.bytes(idlen)));
+                }
+            }
+        }
         let refs: Vec<String> = plans.iter().map(|p| format!("{}.{}.{}.{}.{}", hex(p.path.as_bytes()), p.deleted as u8, p.kind, p.ref_id, p.ref_soname)).collect();
         // the vDSO image, for the independent reader (it has no file)
         let mut vdso_field = String::new();
